@@ -4,6 +4,8 @@
 //! magic identifier and a 4-byte size field. This module provides the core type for
 //! parsing these headers.
 
+use std::io::Read;
+
 use binrw::{BinRead, BinWrite};
 
 use crate::chunk_id::ChunkId;
@@ -120,6 +122,26 @@ impl ChunkHeader {
     pub fn is_chunk(&self, expected: ChunkId) -> bool {
         self.id.0 == expected.0
     }
+}
+
+/// Read exactly `size` bytes of chunk data.
+///
+/// `size` comes from the file, so the buffer is not allocated up front: it grows
+/// with the data that is really present, and a chunk that claims more than the
+/// reader holds fails with `UnexpectedEof` after reading what there is.
+pub(crate) fn read_chunk_data<R: Read>(reader: &mut R, size: u32) -> std::io::Result<Vec<u8>> {
+    let mut data = Vec::new();
+    reader.take(u64::from(size)).read_to_end(&mut data)?;
+    if data.len() != size as usize {
+        return Err(std::io::Error::new(
+            std::io::ErrorKind::UnexpectedEof,
+            format!(
+                "chunk data truncated: expected {size} bytes, found {}",
+                data.len()
+            ),
+        ));
+    }
+    Ok(data)
 }
 
 #[cfg(test)]
